@@ -10,6 +10,20 @@ fn main() {
     let args = parse_args();
     let mut run = Runner::new("C02", &args.tier, "model_checking");
     let thorough = run.thorough();
+
+    // real (default SipHash) hashers first, with oracles that need no hash classes: independent of the model-hasher seam
+    {
+        let (rs, rv) = checks::medium::real_hasher_runs(&["cms"]);
+        run.ev.set("real_hasher_runs", serde_json::json!(rs.ops));
+        let any = !rv.is_empty();
+        for v in rv {
+            run.violation(v);
+        }
+        if any {
+            run.ev.set("stopped_after_real_hasher_runs", serde_json::json!(true));
+            run.finish();
+        }
+    }
     let mut jobs: Vec<(CmsCfg, &'static str, usize, usize)> = vec![];
     for (w, d) in cms::shapes() {
         for f in cms::fvecs(w, d) {
